@@ -303,7 +303,12 @@ def positive_conjunct_if(func, n):
         if k == "cast":
             cur, par = par, func.parent(par)
             continue
-        if k == "bin" and par["op"] == "&&":
+        if k == "bin" and par["op"] in ("&&", "||"):
+            # a positive (un-negated) occurrence in a condition built of && and || is monotone: setting the flag can only make the
+            # condition true more often - `tapscript || (v0 && (flags & F))` restricts exactly like `v0 && (flags & F)`
+            cur, par = par, func.parent(par)
+            continue
+        if k == "paren":
             cur, par = par, func.parent(par)
             continue
         if k == "if" and par["cond"] is cur:
